@@ -242,6 +242,9 @@ async fn run_typed<K: Kind>(addr: SocketAddr, certs: &Certs, c: &Case) -> Outcom
         }
         wp
     };
+    // without an intruder the warm-up requestor leaves before the client's streams register
+    // (so the topic is, for a moment, without any requestor stream)
+    let mut wp = if c.intruder { Some(wp) } else { drop(wp); None };
     let client = match client(addr, certs).await {
         Ok(c) => c,
         Err(e) => return Outcome::Inconclusive(format!("client connect: {e}")),
@@ -326,7 +329,7 @@ async fn run_typed<K: Kind>(addr: SocketAddr, certs: &Certs, c: &Case) -> Outcom
         }
     }
     let _stop_guard = StopOnDrop(stop.clone());
-    let intruder = if c.intruder {
+    let intruder = if let Some(mut wp) = wp.take() {
         let stop = stop.clone();
         let req_comp = c.req_comp;
         let per_stream = nclones * ncalls + 2;
@@ -374,7 +377,6 @@ async fn run_typed<K: Kind>(addr: SocketAddr, certs: &Certs, c: &Case) -> Outcom
             drop(wp);
         }))
     } else {
-        drop(wp);
         None
     };
     go.wait().await;
